@@ -86,6 +86,7 @@ type Interp struct {
 }
 
 func NewInterp(p *load.Program, m Mode) *Interp {
+	AliasProgram = p
 	return &Interp{Prog: p, Mode: m, ordCache: map[*ast.FuncDecl]map[*ast.CallExpr]string{}, goOrd: map[*ast.FuncDecl]map[*ast.GoStmt]string{}, MaxPaths: 96}
 }
 
